@@ -435,6 +435,18 @@ func c17Case(c *fw.Case, thorough bool) {
 		c.Failf("valid-did-rejected", w, "handler rejects the valid DID: %v", err)
 		return
 	}
+	// the suffix in another base64url spelling of the same bytes, and DID URLs built on the DID (fragment, query, path): only the
+	// exact long-form DID is resolved, by the handler and by the VDR
+	if alias := nonCanonicalSpelling(r, suffix); alias != suffix {
+		reject("suffix-other-spelling-of-same-bytes", "did:ion:"+alias+did[len("did:ion:")+len(suffix):], -1)
+	}
+	for _, tail := range []string{"#key-1", "?service=hub", "/path", "#", "?", "/", ";x=y", " "} {
+		reject("tail-appended:"+tail, did+tail, -2)
+		c.Evals(1)
+		if _, err := v.Read(did + tail); err == nil {
+			c.Failf("vdr-read-resolved:tail-appended", map[string]interface{}{"valid_did": did, "tampered_did": did + tail}, "VDR.Read resolved the DID with %q appended", tail)
+		}
+	}
 	stride := 1
 	if !thorough {
 		stride = 5
